@@ -132,9 +132,23 @@ def container_level(ctx, rep):
     return stats
 
 
+def edge_seed_specs(ctx):
+    """Runs whose random_seed is an edge value (0, 1, 2^32 - 1): the result must report the seed the problem specified."""
+    from .. import gen
+    rng = ctx.sub_rng("c19seed")
+    specs = []
+    for seed in ([0, 0, 2 ** 32 - 1] if ctx.quick else [0, 0, 0, 1, 2 ** 31 - 1, 2 ** 32 - 1]):
+        mode = rng.choice(["det", "decl", "auto"])
+        sp = gen.make_spec(rng, D=rng.choice([1, 2]), mode=mode, geom=rng.choice(["box", "tight", "x0_absent"]), cons=None, target="quad", seed=seed)
+        sp["options"] = {"n_search": 32, "max_fun_evals": (sp["D"] + 25) if mode == "det" else 60, "noise_final_samples": 2}
+        specs.append(sp)
+    return specs
+
+
 def run(ctx):
     rep = Report()
     cstats = container_level(ctx, rep)
+    runlevel.with_extra(ctx, "c19seed", lambda: edge_seed_specs(ctx))
     stats, samples = runlevel.noisy_replay(ctx, rep, ctx.pid)
     rep.coverage = {
         "evaluations": stats["iterations"] + stats["final_selects"] + cstats["ops"] + cstats["result_ops"],
